@@ -31,7 +31,7 @@ TEXTS = {
     'C04': {'text': 'FilterNames / FilterValue define the selection algebra in the specification (first Union, unknown names, typed '
                     'filters intersecting presence, the one ambiguous case accepted both ways); TLC (GenFilter.tla) enumerates every '
                     'chain of <= 2 operators over With/Without/Union/WithUnion x index, column, unknown names (pairs of names in '
-                    'thorough) and the value predicates; every chain is replayed on the real code on random layouts (dense, sparse, 1-3 '
+                    'thorough) and the value predicates (also WithValue on a bitmap index: membership as a value); every chain is replayed on the real code on random layouts (dense, sparse, 1-3 '
                     'blocks, rows lacking the column, reused offsets; all ten numeric types) and Count, the Range sequence with the '
                     'values read at each stop, and Sum/Avg/Min/Max are bound to the specification (Count and Range are read again after the '
                     'aggregates: reading is pure); random longer chains on top.',
@@ -63,7 +63,9 @@ TEXTS = {
                     'every interleaving of the commit and snapshot protocols (quick: 1 operation each, thorough: 2; 27.6 M states). '
                     'Controlled schedules (random with long preemptions, and depth-first enumeration) park the real snapshot at '
                     'snap.opened / snap.block / snap.closing / snap.copying beside 2-4 writers; the snapshot is restored and every '
-                    'block image and replayed commit is bound to the specification.',
+                    'block image and replayed commit is bound to the specification. Real parallelism (par/c08): 4-6 goroutines commit merges and puts into one block '
+                    'beside a goroutine taking a snapshot; each block image is logged from inside its read latch by a probe column of the harness (the library calls '
+                    'Snapshot on every column there), commits by the in-latch logger; the restored file is validated the same way.',
             'note': _NOTE, 'technique': _T},
     'C09': {'text': 'Merges are applied inside Apply (one action under the block latch); ReadBack against the per-row fold in apply '
                     'order is model-checked for 2 concurrent writers; controlled schedules of 2-4 writers merging (additive and '
@@ -114,12 +116,14 @@ TEXTS = {
     'C15': {'text': 'StreamIds (distinct, non-zero, increasing per block in emission order) is model-checked under all interleavings '
                     'of 2 writers; in validated executions every in-latch logger event is bound to exactly one Apply action of a dirty '
                     'block of a committing transaction (rolled-back / empty transactions have no Apply), the id must exceed the '
-                    'block\'s last id, and the id delivered by a real commit.Channel must equal the id the store drew.',
+                    'block\'s last id, and the id delivered by a real commit.Channel must equal the id the store drew; half of the concurrent '
+                    'scenarios run beside a snapshot that records the same commits.',
             'note': _NOTE, 'technique': _T},
     'C16': {'text': 'SortCoherent is an invariant (model-checked with a sorted index over a string column); every dump logs the Ascend '
                     'sequence with the value read at each stop: it must be a permutation of the rows holding a value, non-decreasing '
                     'in the specification\'s own lexicographic order. MC_Schema model-checks a sorted index created after the data (back-fill) between two '
-                    'transactions; the sorted column may be dropped (the index is then detached) and re-created.',
+                    'transactions; the sorted column may be dropped (the index is then detached) and re-created; merges with and without a '
+                    'user merge function.',
             'note': _NOTE, 'technique': _T},
     'C17': {'text': 'Expire.tla: NoEarlyExpiry (action property), ExpiredGoes (liveness under weak fairness of tick, scan and commit, no '
                     'state constraint) and NoTTLStays are model-checked for 2-3 rows with an extender, strict and as-built. Timed '
